@@ -1,9 +1,10 @@
 (** Extraction of the executable C11 models and of the specification functions used as oracle.
     Only ExtrOcamlBasic is used: N/positive/nat stay the extracted inductive types. *)
 From Coq Require Import Extraction ExtrOcamlBasic.
-From XV Require Import C11.Spec11 C11.ModelRange11 C11.Model11 Gen.GenC11Cat.
+From XV Require Import C11.Spec11 C11.ModelRange11 C11.Model11 C11.ModelPre11 Gen.GenC11Cat.
 Extraction Language OCaml.
 Extraction "../ocaml/C11/gen_c11.ml"
   cs_mem dmatch_re named_ascii spec_cat_mem spec_word_pred spec_digit_pred cat_of cat_rle
   rt_new addRange sortRanges compactRanges mergeRanges subtractRanges intersectRanges complementRanges rt_match rmem
-  named_tok parse compile omatch xmatch_tok run_re xsearch_tok run_fixed xmatch_fixed_tok re_of_tok sw_faithful sw_fixed.
+  named_tok parse compile omatch xmatch_tok run_re xsearch_tok run_fixed xmatch_fixed_tok re_of_tok sw_faithful sw_fixed
+  fc_tok first_char minlen_u prepare_info xsearch_fc.
